@@ -119,6 +119,8 @@ def oracle(c, r):
             if op['op'] == 'save' and 'back' in o:
                 if 'gen2_exc' in o:
                     return {'key': 'array-read-result-not-savable', 'what': desc + f": {o['gen2_exc']}"}
+                if 'back2' not in o:
+                    continue          # the first read-back could not even be inspected: C02's subject
                 if not o.get('data_equal2') or not c02.dims_equal(o['back']['dims'], o['back2']['dims']) or \
                         any(o['back'][k] != o['back2'][k] for k in ('shape', 'depth', 'units', 'names', 'labels')):
                     return {'key': 'array-second-generation-differs', 'what': desc + f": {str(o['back'])[:150]} -> {str(o['back2'])[:150]}"}
